@@ -100,9 +100,8 @@ impl BlockDecoder {
     pub fn decode_block_content<R: Read>(&mut self, header: &BlockHeader, workspace: &mut DecoderScratch, source: &mut R) -> (res: Result<u64, DecodeBlockContentError>)
         requires R::incremental() ==> old(source).avail() >= header.content_size,
         ensures
-            final(source).avail() <= old(source).avail(),
-            final(workspace).buffer.spec_len() >= old(workspace).buffer.spec_len(),
             res matches Ok(n) ==> final(source).avail() == old(source).avail() - n && old(source).avail() >= n
+                && final(workspace).buffer.spec_len() >= old(workspace).buffer.spec_len()
                 && final(workspace).buffer.spec_len() <= old(workspace).buffer.spec_len() + MAX_BLOCK_SIZE,
     { unimplemented!() }
 }
@@ -290,6 +289,7 @@ impl FrameDecoder {
         source: &mut R,
         strat: BlockDecodingStrategy,
     ) -> (r: Result<bool, FrameDecoderError>)
+        // contract of FrameDecoder::decode_blocks: PROVED in unit FD1V (on the verbatim body), ASSUMED in unit FD3V
         requires
             old(source).avail() >= 0,
             !R::incremental(),      // the streaming entry point: a truncated source is an error (C10), not "need more"
@@ -305,10 +305,12 @@ impl FrameDecoder {
                 let blocks = s1.block_counter - s0.block_counter;
                 let grown = s1.decoder_scratch.buffer.spec_len() - s0.decoder_scratch.buffer.spec_len();
                 &&& fin == s1.frame_finished
+                &&& final(source).avail() >= 0
                 // exact accounting of source bytes
                 &&& s1.bytes_read_counter - s0.bytes_read_counter == old(source).avail() - final(source).avail()
                 // strictly one block after the other, at least one per call
                 &&& blocks >= 1 && grown >= 0
+                &&& old(source).avail() - final(source).avail() >= 3 * blocks      // every block costs at least its 3-byte header
                 // the strategy only decides when to return
                 &&& (strat matches BlockDecodingStrategy::UptoBlocks(n) ==> blocks <= max1(n as int) && (!fin ==> blocks >= n))
                 &&& (strat matches BlockDecodingStrategy::UptoBytes(n) ==> grown < n + MAX_BLOCK_SIZE + (if n == 0 { 1int } else { 0int }) && (!fin ==> grown >= n))
